@@ -60,6 +60,7 @@ class RegWorld(World):
         self.fe = self.cfg.get('frontend', 'v2')
         self.set_ndn_log_level(bool(self.cfg.get('debug_log', False)))
         self.face = DirectFace(self._on_tx)
+        self.face.local = bool(scenario.get('config', {}).get('face_local', True))
         if self.fe == 'v2':
             from ndn import appv2
             self.app = appv2.NDNApp(face=self.face)
@@ -111,6 +112,10 @@ class RegWorld(World):
     def _check_format(self, c, p):
         """Command Interest format of the front-end in use, checked with the independent reader."""
         names = c.name
+        scope = b'localhost' if self.face.local else b'localhop'
+        if names[0][2:] != scope:
+            c.fmt_errors.append(f'command sent under /{names[0][2:].decode()} over a face that is '
+                                f'{"local" if self.face.local else "not local"} (management commands go to /{scope.decode()}/nfd there)')
         try:
             typ, vs, ve = tlvref.single(names[4][_hdr(names[4]):])
             if typ != 0x68:
@@ -282,9 +287,24 @@ class RegWorld(World):
             async def strict(name, sig):
                 return False            # this application trusts no Data that is merely digest-signed
             self.app.data_validator = strict
+        declared = set()
         for pfx in self.scenario.get('routes_before', []):
-            self.app.route('/' + '/'.join(pfx))(lambda *a, **k: None)
-            self.log('route', prefix=pfx, running=False, conn=-1)
+            dup = tuple(pfx) in declared
+            declared.add(tuple(pfx))
+            try:
+                self.app.route('/' + '/'.join(pfx))(lambda *a, **k: None)
+            except ValueError as e:
+                # a second declaration for an occupied prefix may be refused on the spot
+                self.log('route', prefix=pfx, running=False, conn=-1, error=exc_brief(e), dup=dup)
+                if not dup:
+                    self.violate('C17', 'route-refused', self.fe, 'route', f'route({_n(pfx)}) raised {exc_brief(e)}')
+                continue
+            if dup:
+                # ... or be taken silently; either way it is one route, registered once per connection
+                self.log('route', prefix=pfx, running=False, conn=-1, error='duplicate declaration accepted', dup=True)
+                self.stats['fault.duplicate_route_declared'] += 1
+            else:
+                self.log('route', prefix=pfx, running=False, conn=-1)
         for op in self.scenario['ops']:
             if op.get('early'):
                 self.op_call(op)            # before the application connects
@@ -398,7 +418,7 @@ class RegWorld(World):
             free_at = a.answered_t if a.answered_t is not None else a.t + LIFETIME_US
             free_at = min(free_at, a.t + LIFETIME_US)
             # (with a wall clock that moves between reads, a lifetime measured on it ends that much earlier in loop time)
-            slack = W_US + 3 * max(self.scenario.get('config', {}).get('wall_ticks', [0]) or [0])
+            slack = W_US
             if ea['conn'] == eb['conn'] and b.t < free_at - slack:
                 self.violate('C17', 'concurrent-commands', fe, b.verb,
                              f'command #{b.idx} ({b.verb}) was sent at t={b.t}us while command #{a.idx} ({a.verb}, sent '
@@ -426,7 +446,7 @@ class RegWorld(World):
             if kind == 'ok' and fe != 'v2' and (pol.get('badsig') or self.scenario['config'].get('v1_strict_data_validator')):
                 exp = {False}           # the reply did not pass the application's Data validator: failure, without raising
             elif kind == 'ok':
-                wsl = W_US + 3 * max(self.scenario.get('config', {}).get('wall_ticks', [0]) or [0])
+                wsl = W_US
                 exp = {True} if delay < LIFETIME_US - wsl else ({False} if delay > LIFETIME_US + wsl else {True, False})
             else:
                 exp = {False}
@@ -478,6 +498,7 @@ def generate(rng, seed, tier='quick'):
         cfg['other_command_first'] = True
     if fe == 'v1' and rng.random() < 0.1:
         cfg['v1_strict_data_validator'] = True
+    cfg['face_local'] = rng.random() < 0.7       # over a face that is not local, commands go to /localhop/nfd
     if rng.random() < 0.25:
         # the wall clock moves on between two consecutive reads now and then (a tick, or a whole granule)
         cfg['wall_ticks'] = [rng.choice([0, 0, 0, 0, 400, cfg['wall_gran_us']]) for _ in range(60)]
@@ -516,6 +537,9 @@ def generate(rng, seed, tier='quick'):
             if tuple(pfx) not in used:
                 used.add(tuple(pfx))
                 routes_before.append(pfx)
+    if routes_before and rng.random() < 0.12:
+        # the same prefix declared twice (two modules of one program): the other routes must not suffer
+        routes_before.insert(rng.randrange(len(routes_before) + 1), list(rng.choice(routes_before)))
     if rng.random() < 0.3 and not routes_before:
         # (a route declared while the start-up registrations are still running is outside the statement)
         pfx = ['s', rng.choice(['x', 'y'])]
